@@ -95,29 +95,52 @@ def read_bytes(path):
         return None
 
 
-class FaultyStdout(io.StringIO):
-    """sys.stdout whose consumer goes away: 'BrokenPipeError' on the first
-    write (reader closed the pipe), 'ENOSPC' on the final flush (output
-    redirected to a full disk)."""
+class _CountingText(io.TextIOWrapper):
+    def write(self, s):
+        self.nchars = getattr(self, "nchars", 0) + len(s)
+        return io.TextIOWrapper.write(self, s)
+
+
+class FaultyStdout(object):
+    """A sys.stdout whose consumer goes away, on a REAL file descriptor (the
+    command may inspect or redirect it): 'BrokenPipeError' -- a pipe whose
+    reading end is closed (`nbmerge ... | head`); 'ENOSPC' -- /dev/full
+    (output redirected to a full disk); 'none' -- a temporary file."""
 
     def __init__(self, kind):
-        io.StringIO.__init__(self)
         self.kind = kind
-        self.fired = 0
-        self.n = 0
+        self.tmp = None
+        if kind == "BrokenPipeError":
+            r, w = os.pipe()
+            os.close(r)
+            raw = io.FileIO(w, "w")
+        elif kind == "ENOSPC":
+            raw = io.FileIO("/dev/full", "w")
+        else:
+            fd, self.tmp = tempfile.mkstemp(prefix="vfc08so")
+            raw = io.FileIO(fd, "w")
+        self.stream = _CountingText(io.BufferedWriter(raw), encoding="utf8")
 
-    def write(self, s):
-        self.n += 1
-        if self.kind == "BrokenPipeError" and s:
-            self.fired = self.n
-            raise BrokenPipeError(32, "Broken pipe")
-        return io.StringIO.write(self, s)
+    @property
+    def fired(self):
+        return self.kind != "none" and getattr(self.stream, "nchars", 0) > 0
 
-    def flush(self):
-        if self.kind == "ENOSPC" and self.n:
-            self.fired = self.n
-            raise OSError(28, "No space left on device")
-        return io.StringIO.flush(self)
+    def getvalue(self):
+        """Text that reached the consumer (fault-free kind only); closes."""
+        text = ""
+        try:
+            self.stream.flush()
+        except (OSError, ValueError):
+            pass
+        if self.tmp:
+            with open(self.tmp, encoding="utf8") as f:
+                text = f.read()
+            os.unlink(self.tmp)
+        try:
+            self.stream.close()
+        except (OSError, ValueError):
+            pass
+        return text
 
 
 class FaultyFile(object):
@@ -325,7 +348,7 @@ def make_cli(entry, script_idx, faults=True, placeholders=("none",), strats=(0,)
                             import nbdime.args as nargs
                             sv = nargs.get_defaults_for_argparse
                             nargs.get_defaults_for_argparse = lambda ep: {}
-                            real_stdout, sys.stdout = sys.stdout, fake_out
+                            real_stdout, sys.stdout = sys.stdout, fake_out.stream
                             try:
                                 status = app.main(argv)
                                 # what the interpreter does when main() returns
@@ -376,7 +399,7 @@ def make_cli(entry, script_idx, faults=True, placeholders=("none",), strats=(0,)
                 E.goal("stdout-fault-" + fake_out.kind)
                 E.check("never-reports-success-after-a-failed-write-to-stdout",
                         exc is not None or (status is not None and status != 0),
-                        info=info + " stdout fault %s at write %d" % (fake_out.kind, fake_out.fired))
+                        info=info + " stdout fault %s" % (fake_out.kind,))
                 E.check("stdout-mode-leaves-output-file-untouched", after == before, info=info)
                 return
             if exc is not None and not fired:
